@@ -230,11 +230,24 @@ impl Observer {
 // ---------------------------------------------------------------------------------------------
 // round bookkeeping shared by the thread mode and the process mode
 
+fn now_ns() -> u64 {
+    // CLOCK_MONOTONIC is system-wide: timestamps taken in different processes are comparable
+    let mut ts = libc::timespec { tv_sec: 0, tv_nsec: 0 };
+    unsafe {
+        libc::clock_gettime(libc::CLOCK_MONOTONIC, &mut ts);
+    }
+    ts.tv_sec as u64 * 1_000_000_000 + ts.tv_nsec as u64
+}
+
 #[derive(Default)]
 struct Ctl {
     arrivals: usize,
+    /// writers currently inside the callback as far as the controller has been told (used for settling only)
     active: i64,
-    max_active: i64,
+    /// [entered the callback, left it / was dropped / was killed) per writer, timestamps taken by the writer
+    /// itself (or by the harness right before it kills / drops it)
+    open: HashMap<usize, u64>,
+    intervals: Vec<(u64, u64)>,
     writes_ok: usize,
     cb_obs_bad: usize,
     seen_bad: usize,
@@ -253,14 +266,43 @@ struct RoundCfg {
     gate_idx: Option<usize>,
 }
 
+impl Ctl {
+    fn leave(&mut self, creator: usize, t: u64) {
+        if let Some(t0) = self.open.remove(&creator) {
+            self.intervals.push((t0, t));
+            self.active -= 1;
+        }
+    }
+    /// the largest number of writers that were inside the write callback at the same time
+    fn max_active(&mut self) -> usize {
+        let now = now_ns();
+        let still: Vec<usize> = self.open.keys().copied().collect();
+        for c in still {
+            self.leave(c, now);
+        }
+        let mut ev: Vec<(u64, i32)> = Vec::new();
+        for (a, b) in &self.intervals {
+            ev.push((*a, 1));
+            ev.push((*b, -1));
+        }
+        ev.sort();
+        let (mut cur, mut best) = (0i32, 0i32);
+        for (_, d) in ev {
+            cur += d;
+            best = best.max(cur);
+        }
+        best as usize
+    }
+}
+
 impl RoundCfg {
     /// a creator enters the write callback: it is the `idx`-th to do so and gets that fate and size
-    fn arrive(&self, ctl: &Mutex<Ctl>) -> (usize, Fate, usize, bool) {
+    fn arrive(&self, ctl: &Mutex<Ctl>, creator: usize, t: u64) -> (usize, Fate, usize, bool) {
         let mut c = ctl.lock().unwrap();
         let idx = c.arrivals;
         c.arrivals += 1;
         c.active += 1;
-        c.max_active = c.max_active.max(c.active);
+        c.open.insert(creator, t);
         let fate = self.fates.get(idx).copied().unwrap_or(Fate::Ok);
         let chunks = if self.sizes.is_empty() { 1 } else { self.sizes[idx % self.sizes.len()] };
         (idx, fate, chunks, self.gate_idx == Some(idx))
@@ -324,12 +366,12 @@ struct ShT {
 }
 
 async fn write_cb_threads(sh: Arc<ShT>, c: usize, mut file: std::fs::File) -> Result<Made, CbErr> {
-    let (idx, fate, chunks, is_gate) = sh.cfg.arrive(&sh.ctl);
+    let (idx, fate, chunks, is_gate) = sh.cfg.arrive(&sh.ctl, c, now_ns());
     let payload = payload_chunks(sh.cfg.seed, idx as u64, chunks);
     for k in 0..=chunks {
         match fate {
             Fate::Fail(f) if k >= f.min(chunks) => {
-                sh.ctl.lock().unwrap().active -= 1;
+                sh.ctl.lock().unwrap().leave(c, now_ns());
                 return Err(CbErr("injected write failure".into()));
             }
             Fate::Cancel(f) | Fate::Kill(f) if k >= f.min(chunks) => {
@@ -337,7 +379,7 @@ async fn write_cb_threads(sh: Arc<ShT>, c: usize, mut file: std::fs::File) -> Re
                 // the lock is released by the drop itself, before the controller could do any bookkeeping.
                 {
                     let mut ctl = sh.ctl.lock().unwrap();
-                    ctl.active -= 1;
+                    ctl.leave(c, now_ns());
                     ctl.abort_wanted.push(c);
                 }
                 std::future::pending::<()>().await;
@@ -360,7 +402,7 @@ async fn write_cb_threads(sh: Arc<ShT>, c: usize, mut file: std::fs::File) -> Re
     drop(file);
     {
         let mut ctl = sh.ctl.lock().unwrap();
-        ctl.active -= 1;
+        ctl.leave(c, now_ns());
         ctl.writes_ok += 1;
     }
     Ok(Made::Created)
@@ -557,7 +599,7 @@ fn child_main(args: &[String]) -> ! {
                     let (c, f) = rest.split_once(':').unwrap_or((rest, "ok"));
                     (id, Fate::parse(f), c.parse::<usize>().unwrap_or(1), false)
                 } else {
-                    say("ARRIVE");
+                    say(&format!("ARRIVE {}", now_ns()));
                     let mut line = String::new();
                     std::io::stdin().lock().read_line(&mut line).unwrap();
                     let w: Vec<&str> = line.split_whitespace().collect();
@@ -567,7 +609,7 @@ fn child_main(args: &[String]) -> ! {
                 for k in 0..=chunks {
                     match fate {
                         Fate::Fail(f) if k >= f.min(chunks) => {
-                            say("LEAVE 0");
+                            say(&format!("LEAVE 0 {}", now_ns()));
                             return Err(CbErr("injected write failure".into()));
                         }
                         Fate::Kill(f) | Fate::Cancel(f) if k >= f.min(chunks) => {
@@ -592,7 +634,7 @@ fn child_main(args: &[String]) -> ! {
                     }
                 }
                 drop(file);
-                say("LEAVE 1");
+                say(&format!("LEAVE 1 {}", now_ns()));
                 Ok::<Made, CbErr>(Made::Created)
             },
             || async move {
@@ -682,14 +724,13 @@ fn spawn_kid(sh: &Arc<ShP>, c: usize, id: u64, mode: &str, strace: Option<Vec<St
     let (sh2, stdin2) = (sh.clone(), stdin.clone());
     let reader = std::thread::spawn(move || {
         let mut outcome: Option<Outcome> = None;
-        let mut in_callback = false;
+        let stamp = |w: &[&str], i: usize| w.get(i).and_then(|t| t.parse::<u64>().ok()).unwrap_or_else(now_ns);
         for line in BufReader::new(stdout).lines() {
             let Ok(line) = line else { break };
             let w: Vec<&str> = line.split_whitespace().collect();
             match w.first().copied() {
                 Some("ARRIVE") => {
-                    let (idx, fate, chunks, gate) = sh2.cfg.arrive(&sh2.ctl);
-                    in_callback = true;
+                    let (idx, fate, chunks, gate) = sh2.cfg.arrive(&sh2.ctl, c, stamp(&w, 1));
                     let _ = writeln!(stdin2.lock().unwrap(), "{idx} {} {chunks} {}", fate.show(), gate as u8);
                 }
                 Some("OBSBAD") => sh2.ctl.lock().unwrap().cb_obs_bad += 1,
@@ -701,10 +742,7 @@ fn spawn_kid(sh: &Arc<ShP>, c: usize, id: u64, mode: &str, strace: Option<Vec<St
                 Some("PARKED") => {
                     // SIGKILL the writer mid-write (it counts as gone from now on: the kernel releases its lock
                     // before this thread could notice the death)
-                    if in_callback {
-                        sh2.ctl.lock().unwrap().active -= 1;
-                        in_callback = false;
-                    }
+                    sh2.ctl.lock().unwrap().leave(c, now_ns());
                     if let Some(pid) = w.get(1).and_then(|p| p.parse::<i32>().ok()) {
                         unsafe {
                             libc::kill(pid, libc::SIGKILL);
@@ -713,8 +751,7 @@ fn spawn_kid(sh: &Arc<ShP>, c: usize, id: u64, mode: &str, strace: Option<Vec<St
                 }
                 Some("LEAVE") => {
                     let mut ctl = sh2.ctl.lock().unwrap();
-                    ctl.active -= 1;
-                    in_callback = false;
+                    ctl.leave(c, stamp(&w, 2));
                     if w.get(1) == Some(&"1") {
                         ctl.writes_ok += 1;
                     }
@@ -737,10 +774,7 @@ fn spawn_kid(sh: &Arc<ShP>, c: usize, id: u64, mode: &str, strace: Option<Vec<St
                 _ => {}
             }
         }
-        let mut ctl = sh2.ctl.lock().unwrap();
-        if in_callback {
-            ctl.active -= 1;
-        }
+        sh2.ctl.lock().unwrap().leave(c, now_ns());
         outcome.unwrap_or(Outcome::Killed)
     });
     sh.ctl.lock().unwrap().started += 1;
@@ -920,7 +954,7 @@ fn run_round(ws: &[&str], stats: &mut Stats) -> Vec<String> {
     let cfg = RoundCfg { seed, dest: dest.clone(), fates: fates.clone(), sizes, gate_idx };
     let mut out = Vec::new();
     let observer = Observer::start(dest.clone(), move |p| read_class(p, seed));
-    let (pre_result, outcomes, ctl) = if mode == "procs" {
+    let (pre_result, outcomes, mut ctl) = if mode == "procs" {
         let pre = kv(ws, "pre").filter(|p| *p != "-").and_then(|p| {
             let (point, d) = p.split_once('x')?;
             Some((point.to_string(), d.parse().ok()?, kv_num(ws, "presize", 2)))
@@ -956,7 +990,7 @@ fn run_round(ws: &[&str], stats: &mut Stats) -> Vec<String> {
         count(&|o| *o == Outcome::Cancelled)
     ));
     out.push(format!("writes_ok={}", ctl.writes_ok));
-    out.push(format!("max_active={}", ctl.max_active));
+    out.push(format!("max_active={}", ctl.max_active()));
     out.push(format!("observations bad={}", obs_bad + ctl.cb_obs_bad as u64));
     out.push(if ctl.seen_bad == 0 { "seen ok".to_string() } else { "seen bad".to_string() });
     out.push(fin);
@@ -1336,8 +1370,8 @@ impl Prop for C16 {
     }
     fn case_count(&self, tier: Tier) -> u64 {
         match tier {
-            Tier::Quick => 70,
-            Tier::Thorough => 1500,
+            Tier::Quick => 400,
+            Tier::Thorough => 6000,
         }
     }
     fn fixed_cases(&self, tier: Tier) -> Vec<Case> {
